@@ -368,6 +368,99 @@ def run_concurrent(case):
             'auths': svc.count('authorize'), 'temps': 0, 'fired': len(svc.plan.fired)}
 
 
+def run_session(case):
+    """A session: the operations of case['session'] run one after the other on ONE adapter object, each under its own
+    fault plan (armed just before it).  Every operation has its own retry budget, whatever the session has seen before."""
+    backend_kind = case['backend']
+    c = case['chunk']
+    if backend_kind == 's3c':
+        from replicat.backends import s3c
+        svc = fk.FakeS3('bkt', page_size=1000, piece=c, max_requests=10 ** 6)
+        with fk.patched_async_client(svc.handler):
+            b = s3c.S3Compatible('bkt', key_id='AKIDEXAMPLE', access_key='secret', region='us-east-1', host='s3.fake.test')
+    else:
+        from replicat.backends import b2
+        svc = fk.FakeB2('bkt', page_size=1000, piece=c, max_requests=10 ** 6)
+        with fk.patched_async_client(svc.handler):
+            b = b2.B2('bkt', key_id='kid', application_key='appkey')
+    problems, worst, fired = [], 0, 0
+    for i, step in enumerate(case['session']):
+        m = step['method']
+        name, data = f'data/ss/o{i}', payload(case['size'] + i % 5, 30 + i)
+        if m in ('download', 'download_stream', 'exists', 'delete', 'list'):
+            if backend_kind == 's3c':
+                svc.objects[name] = data
+            else:
+                svc.versions[name] = [('upload', data)]
+        rules = []
+        for f in step['faults']:
+            r = {'op': f.get('target') or PRIMARY[(backend_kind, m)], 'kind': f['kind'], 'count': 1}
+            r.update({k: f[k] for k in ('after', 'exc') if k in f})
+            rules.append(r)
+        if step.get('persistent') and rules:
+            rules[-1]['count'] = 10 ** 9
+        svc.plan = fk.FaultPlan(rules)
+        before = svc.nrequests
+        svc.max_requests = before + HARD_CAP
+        try:
+            p = sync(_one_of_many(b, m, name, data, c))
+        except BaseException as e:      # noqa
+            p = f'{m}({name}): {exc_class(e)}'
+        fired += len(svc.plan.fired)
+        worst = max(worst, svc.nrequests - before)
+        L = len(step['faults'])
+        has403 = any(x['kind'] == '403' for x in step['faults'])
+        if step.get('persistent'):
+            if p is None:
+                problems.append(f'step {i} {m}: the fault never goes away but the operation returned normally')
+            elif 'RequestCapExceeded' in p or 'RecursionError' in p:
+                problems.append(f'step {i} {m}: retried without bound ({svc.nrequests - before} requests)')
+        elif p is not None and L < case['budget'] and not has403:
+            problems.append(f'step {i} of the session ({L} fault(s) {step["faults"][:1]} on this operation, {fired} masked so far in the session): {p}')
+    sync(b.close())
+    return {'outcome': 'ok' if not problems else 'error:session', 'problems': problems, 'pos': None, 'content': None, 'value': None, 'obj': None,
+            'tries': svc.nrequests, 'requests': worst, 'auths': svc.count('authorize'), 'temps': 0, 'fired': fired}
+
+
+def session_cases(f, rng, extra=0):
+    """Long sessions on one adapter object: 6-20 operations, most of them meeting 1 .. budget-1 transient faults of one kind
+    (expired token, 401, 5xx, 429, dropped connection ...), now and then a never-ending fault in between."""
+    cases = []
+    kinds = ('401', 'expire', '500', '503', '429', 'drop', 'drop_body', '408')
+    for backend in ('b2', 's3c'):
+        mt = f[{'s3c': 's3_max_tries', 'b2': 'b2_max_tries'}[backend]]
+        budget = min(mt, f['max_reauth'] + 1) if backend == 'b2' else mt
+
+        def step(i, kind, L, persistent=False):
+            m = CONC_METHODS[i % len(CONC_METHODS)]
+            if kind == 'expire' and backend != 'b2':
+                kind = '401'
+            fault = {'kind': kind}
+            if kind == 'drop_body':
+                if m not in ('upload', 'upload_stream', 'download', 'download_stream'):
+                    fault = {'kind': 'drop'}
+                else:
+                    fault['after'] = 1
+            n = 1 if kind == 'expire' else (max(L, 1) if persistent else L)
+            if persistent and kind == 'expire':
+                fault = {'kind': '401'}
+            return {'method': m, 'faults': [dict(fault) for _ in range(n)], **({'persistent': True} if persistent else {})}
+        # one kind all along the session, one fault per operation / budget-1 faults per operation
+        for kind in kinds:
+            for L in (1, budget - 1):
+                cases.append({'backend': backend, 'method': 'session', 'size': 5, 'chunk': 4, 'nested': True, 'budget': budget, 'faults': [{'kind': kind}],
+                              'session': [step(i, kind, L) for i in range(3 * budget + 2)]})
+        # a never-ending fault in the middle must end boundedly and leave the budget of the later operations intact
+        for kind in ('500', '401', '429', 'drop'):
+            sess = [step(i, kind, 1) for i in range(4)] + [step(4, kind, 1, persistent=True)] + [step(i, kind, budget - 1) for i in range(5, 10)]
+            cases.append({'backend': backend, 'method': 'session', 'size': 5, 'chunk': 4, 'nested': True, 'budget': budget, 'faults': [{'kind': kind}], 'session': sess})
+        for _ in range(extra):
+            n = rng.randint(6, 20)
+            sess = [step(rng.randrange(7), rng.choice(kinds), rng.randint(0, budget - 1), persistent=rng.random() < 0.07) for _ in range(n)]
+            cases.append({'backend': backend, 'method': 'session', 'size': 5, 'chunk': 4, 'nested': True, 'budget': budget, 'faults': [{'kind': 'mixed'}], 'session': sess})
+    return cases
+
+
 CONC_METHODS = ('upload_stream', 'download_stream', 'upload', 'download', 'delete', 'exists', 'list')
 
 
@@ -812,6 +905,11 @@ def oracle(case, res, f):
     if o in ('error:RecursionError', 'error:RequestCapExceeded') or res['requests'] > HARD_CAP:
         bad.append((f'retried without bound: {res["requests"]} requests, ended with {o}', 'unbounded'))
         return bad
+    if case.get('session'):
+        for p in res['problems'][:2]:
+            bad.append((f'{len(case["session"])} operations one after the other on one adapter object: ' + p,
+                        'unbounded' if 'without bound' in p else ('no_error' if 'never goes away' in p else 'not_masked')))
+        return bad
     if case.get('concurrent'):
         if res['problems'] and L < budget(case, f) and not has403:
             bad.append((f'{len(case["concurrent"])} operations in flight on one client ({", ".join(case["concurrent"])}), {L} fault(s) {case["faults"][0]}, '
@@ -885,6 +983,8 @@ def signature(case, kind):
 def execute(case, scratch: Path):
     if case.get('concurrent'):
         return run_concurrent(case)
+    if case.get('session'):
+        return run_session(case)
     if case['backend'] == 'local':
         return run_local(case, scratch / 'local_repo')
     return run_http(case)
@@ -897,7 +997,7 @@ def check_cases(cases, rep: Report, scratch: Path, f, with_model=True):
             res = execute(case, scratch)
             results.append(res)
             L = len(case['faults'])
-            rep.case((case['backend'], case['method'], case.get('absent'), case.get('seconds_per_piece'), case.get('concurrent'), case.get('authorize_delay'), case['size'], case['chunk'], case.get('old'), case.get('init'), case.get('piece'), case.get('prelude'),
+            rep.case((case['backend'], case['method'], repr(case.get('session')), case.get('absent'), case.get('seconds_per_piece'), case.get('concurrent'), case.get('authorize_delay'), case['size'], case['chunk'], case.get('old'), case.get('init'), case.get('piece'), case.get('prelude'),
                       [sorted(x.items()) for x in case['faults']]), nontrivial=res['fired'] >= 1)
             rep.count(f'{case["backend"]}:{case["method"]}')
             rep.count('run_length=' + (str(L) if L <= 6 else '>6'))
@@ -956,7 +1056,7 @@ def list_fault_probe(rep: Report, scratch: Path, f):
 RULE = ('case = (backend, method, payload size, chunk size, fault sequence): every fault position (before the first byte, after k '
         'stream chunks for every k, after the last) x kind (OSError per entry point; connection refused / dropped in mid-transfer, '
         '500, 503, 429+retry-after, 401, 403, 500 after the effect) x run length 1..max_tries+1, payloads 0, 1, chunk-1, chunk, '
-        'chunk+1, 3*chunk, plus random mixed sequences, multi-operation scenarios (fault-free prelude of the same client, then the faulted operation; B2 upload URL / token pairs expiring or their pod getting sick) B2 nested-endpoint / expired-token cases, every httpx transport exception class (and OSError subclasses) at each kind of position, slow transfers on a virtual clock that backoff reads (10-40 s per body piece), and 2-8 operations in flight on one client while the token expires (slow re-authorisation) or stray faults occur; non-trivial = at least one fault fired; '
+        'chunk+1, 3*chunk, plus random mixed sequences, multi-operation scenarios (fault-free prelude of the same client, then the faulted operation; B2 upload URL / token pairs expiring or their pod getting sick) B2 nested-endpoint / expired-token cases, sessions of 6-20 operations on one adapter object each within its own budget, every httpx transport exception class (and OSError subclasses) at each kind of position, slow transfers on a virtual clock that backoff reads (10-40 s per body piece), and 2-8 operations in flight on one client while the token expires (slow re-authorisation) or stray faults occur; non-trivial = at least one fault fired; '
         'distinct = distinct case tuples')
 
 
@@ -971,7 +1071,7 @@ def run(ctx) -> Report:
     chunks = [4, 2] if ctx.tier == 'quick' else [4, 1, 2, 7]
     cases = corpus() + sequence_cases(f) + transport_class_cases(f) + slow_cases(f) + enumerate_cases(f, chunks, ctx.tier != 'quick')
     cases += random_cases(ctx.rng, f, ctx.scale(600, 8000), [1, 2, 3, 4, 7] if ctx.tier != 'quick' else [2, 4, 5])
-    cases += nested_cases(f) + persistent_cases(f) + concurrent_cases(f, ctx.rng, ctx.scale(40, 600))
+    cases += nested_cases(f) + persistent_cases(f) + concurrent_cases(f, ctx.rng, ctx.scale(40, 600)) + session_cases(f, ctx.rng, ctx.scale(15, 300))
     check_cases(cases, rep, ctx.scratch, f)
     list_fault_probe(rep, ctx.scratch, f)
     rep.notes.append(f'budgets read from the source: local max_tries={f["local_max_tries"]}, s3 max_tries={f["s3_max_tries"]}, '
@@ -985,7 +1085,7 @@ def search(ctx, broken) -> Report:
     rep = Report(rule=RULE)
     f = facts()
     seeds = [b['case']['case'] for b in broken if isinstance(b.get('case'), dict) and isinstance(b['case'].get('case'), dict)]
-    cases = seeds + enumerate_cases(f, [4, 1, 3], True) + random_cases(ctx.rng, f, 3000, [1, 2, 3, 4, 7]) + nested_cases(f) + persistent_cases(f) + sequence_cases(f) + transport_class_cases(f) + slow_cases(f) + concurrent_cases(f, ctx.rng, 400)
+    cases = seeds + enumerate_cases(f, [4, 1, 3], True) + random_cases(ctx.rng, f, 3000, [1, 2, 3, 4, 7]) + nested_cases(f) + persistent_cases(f) + sequence_cases(f) + transport_class_cases(f) + slow_cases(f) + concurrent_cases(f, ctx.rng, 400) + session_cases(f, ctx.rng, 200)
     check_cases(cases, rep, ctx.scratch, f, with_model=False)
     list_fault_probe(rep, ctx.scratch, f)
     return rep
